@@ -17,7 +17,7 @@ MANIFEST = {
                  "integer cursor model",
     "text": "Every in-range sequence over {read(n), read(), seek(k), seek(d,1), tell, len} to depth 3 (thorough 4) on one "
             "handle and depth 2 (3) interleaved over two handles, without state merging, plus a BFS closure over the model "
-            "states (position, offsets-known, end-reached, last op) at any depth, for 13 format fixtures (incl. a DCD whose header frame count disagrees with the file, and a 10-atom mdcrd) with and without "
+            "states (position, offsets-known, end-reached, last op) at any depth, for 14 format fixtures (incl. a DTR stack of two time-overlapping frame sets, a DCD whose header frame count disagrees with the file, and a 10-atom mdcrd) with and without "
             "atom_indices; every step is executed on the real object and compared with the model and with the frames of a "
             "full read. Right level: the property is a statement about all histories of a tiny state machine.",
     "note": "Bounded: N=5 frames, 4 (xtc: 4 and 12) atoms; out-of-range operations are not issued; the full read is the "
@@ -28,7 +28,9 @@ MANIFEST = {
 from vlib import explore
 
 N = 5
-FORMATS = ["h5", "xtc", "xtc12", "trr", "dcd", "dcdhdr", "nc", "mdcrd", "mdcrd10", "xyz", "lammpstrj", "dtr", "arc"]
+FORMATS = ["h5", "xtc", "xtc12", "trr", "dcd", "dcdhdr", "nc", "mdcrd", "mdcrd10", "xyz", "lammpstrj", "dtr", "stk", "arc"]
+# stk: two DTR frame sets overlapping in time (a restart from a checkpoint): times 1,3,5 and 5,7,9 -- the stack keeps
+# 1,3 of the first and all of the second, the dropped frame of the first set carries other coordinates.
 # dcdhdr: a DCD whose header frame count (3) disagrees with the file (5 frames) -- an interrupted / appended run;
 # mdtraj documents that it then goes by the file size.  mdcrd10: 10 atoms = exactly three full 10-field lines per frame.
 NATOMS = {"xtc12": 12, "mdcrd10": 10}
@@ -70,6 +72,18 @@ def make_fixtures(ctx):
                         fh.write("%6s  %-3s%16s%16s%16s" % tuple(w[:5]) + "".join("%6s" % x for x in w[5:]) + "\n")
             fx[fmt] = p
             continue
+        if fmt == "stk":
+            t = _traj(4, ctx.seed)
+            a = t[0:3]
+            a.xyz[2] += 50.0                     # the frame at time 5 that the stack must drop in favour of the second set's
+            pa, pb, p = os.path.join(d, "c18_seta.dtr"), os.path.join(d, "c18_setb.dtr"), os.path.join(d, "c18_stack.stk")
+            a.save(pa)
+            t[2:5].save(pb)
+            with open(p, "w") as fh:
+                fh.write(pa + "\n" + pb + "\n")
+            fx[fmt] = p
+            fx["_stk_parts"] = (pa, pb)
+            continue
         natoms = NATOMS.get(fmt, 4)
         p = os.path.join(d, "c18_%s.%s" % (fmt, EXT.get(fmt, fmt)))
         _traj(natoms, ctx.seed).save(p)
@@ -94,6 +108,9 @@ def _open(p):
     import mdtraj as md
     if p.endswith(".mdcrd"):
         return md.open(p, "r", n_atoms=10 if "mdcrd10" in p else 4)
+    if p.endswith(".stk"):
+        from mdtraj.formats import DTRTrajectoryFile      # md.open has no .stk entry; the DTR class reads stacks
+        return DTRTrajectoryFile(p)
     if "dcdhdr" in p:
         # the plugin printf()s "header claims 3 frames, file size indicates 5" on every open: keep it off the check output
         import ctypes
@@ -289,6 +306,8 @@ def _fulls(fx):
     import mdtraj as md
     out = {}
     for fmt, p in fx.items():
+        if fmt.startswith("_"):
+            continue
         for ai in (None, [0, 2]):
             with _open(p) as f:
                 out[(fmt, ai is not None)] = _norm(f.read(atom_indices=ai))
@@ -301,6 +320,21 @@ def run(ctx):
     for (fmt, ai), full in fulls.items():
         n = full[0].shape[0]
         assert n >= 2, (fmt, n)
+    # the stack's full read is anchored to its parts (plain DTR reads are anchored by C01/C02): frames 0,1 of the first
+    # set, then the whole second set
+    try:
+        with _open(fx["_stk_parts"][0]) as fa, _open(fx["_stk_parts"][1]) as fb:
+            ra, rb = _norm(fa.read()), _norm(fb.read())
+        for i, (g, xa, xb) in enumerate(zip(fulls[("stk", False)], ra, rb)):
+            if g is None or xa is None:
+                continue
+            want = np.concatenate([xa[:2], xb])
+            if g.shape != want.shape or not np.array_equal(g, want, equal_nan=True):
+                ctx.violation("stk|readall|wrong-data|vs-frame-sets", "field %d of a full read of the stack is not frames 0,1 of the "
+                              "first set followed by the second set" % i, {"init": "stk/1/all", "history": [[0, "readall"]]})
+    except Exception as e:  # noqa
+        ctx.violation("stk|readall|raised|vs-frame-sets", "reading the stack or its parts raised %s: %s" % (type(e).__name__, str(e)[:120]),
+                      {"init": "stk/1/all", "history": [[0, "readall"]]})
     quick = ctx.quick
     d1 = 3 if quick else 4
     d2 = 2 if quick else 3
